@@ -56,6 +56,9 @@ def cfg_for(ctx, cfg):
     if not fx:
         return cfg
     text = open(os.path.join(vlib.SPEC, cfg)).read()
+    fam = os.environ.get("VERIF_C04_FAMILIES")          # development knob: restrict the case families of a flow A configuration
+    if fam and "Inv_Emit" in text:
+        text = re.sub(r"Families = \{[^}]*\}", "Families = {%s}" % ", ".join('"%s"' % x for x in fam.split(",")), text)
     for d in fx:
         text, n = re.subn(r"Dev_%s = TRUE" % d, "Dev_%s = FALSE" % d, text)
     out = ctx.path("fixed_" + cfg)
@@ -107,6 +110,22 @@ def flt_literal(t, v):
     return "(-%s)" % s if m < 0 else s
 
 
+def flit_text(e):
+    """spelling of a floating constant whose exact value m * 2^e need not be representable in its type:
+    decimal digits (integral values) or normalised hexadecimal 0x1.<fraction>p<exponent>, suffix f for float"""
+    m, ex = flt_py(e["v"])
+    a = abs(m)
+    suf = "f" if e["t"] == "float" else ""
+    if e["sp"] == "dec":
+        s = "%d.0%s" % (a << ex, suf)
+    else:
+        n = a.bit_length()
+        pad = -(n - 1) % 4
+        frac = ("%0*x" % ((n - 1 + pad) // 4, (a - (1 << (n - 1))) << pad)) if n > 1 else ""
+        s = "0x1%s%sp%d%s" % ("." if frac else "", frac, ex + n - 1, suf)
+    return "(-%s)" % s if m < 0 else s
+
+
 def literal(t, v):
     return flt_literal(t, v) if t in ("float", "double") else int_literal(t, as_int(t, v))
 
@@ -133,6 +152,16 @@ def render(e, params=None, pre=None):
         if pre is not None:
             pre.append("enum { %s = %s };" % (enum_name(x), int_literal("int", x)))
         return enum_name(x)
+    if k == "flit":
+        return flit_text(e)           # also at run time: the constant itself is the subject
+    if k == "chain":                  # operators WITHOUT parentheses; unary / cast operands lose their outer pair too
+        xs = []
+        for x in e["xs"]:
+            t = render(x, params, pre)
+            xs.append(t[1:-1] if x["k"] in ("un", "cast") else t)
+        return " ".join(a + " " + b for a, b in zip(xs, e["ops"])) + " " + xs[-1]
+    if k == "ucond":
+        return "%s ? %s : %s" % (render(e["c"], params, pre), render(e["a"], params, pre), render(e["b"], params, pre))
     if k == "num":
         x = u64(e["v"])
         suf = e["suf"].upper() if x & 1 else e["suf"]
@@ -184,6 +213,10 @@ def shape(e):
         return "%s(%s)" % (e["src"], e["ty"])
     if k == "num":
         return "num%d%s" % (e["b"], e["suf"])
+    if k == "flit":
+        return "flit:%s:%s" % (e["t"], e["sp"])
+    if k == "chain":
+        return "chain[%s]" % " ".join(shape(x) + " " + o for x, o in zip(e["xs"], e["ops"] + [""])).strip()
     if k == "sym":
         return "arr"
     if k == "mem":
@@ -209,8 +242,10 @@ def ops_of(e):
         return []
     if k == "pcast":
         return ["(%s)" % e["to"]] + ops_of(e["p"])
-    if k in ("leaf", "num"):
+    if k in ("leaf", "num", "flit"):
         return [k]
+    if k == "chain":
+        return ["chain"] + list(e["ops"]) + [o for x in e["xs"] for o in ops_of(x)]
     if k == "idx":
         return ["&[]"] + ops_of(e["a"])
     if k == "padd":
@@ -1013,6 +1048,8 @@ def run(ctx):
     else:
         traces += flow_a(ctx, objdir, tracedir, "MC_CArith_real_thorough.cfg", True, ["x86_64-sysv"])
         traces += flow_a(ctx, objdir, tracedir, "MC_CArith_real_quick_uchar.cfg", False, ["aarch64", "riscv64"], runtime=False)
+    if "flowb" not in parts:
+        return
     with Timer(ctx, "flowB"):
         seen, total = collect_events(traces)
         validate_events(ctx, seen, total)
